@@ -210,6 +210,10 @@ def gen_request(rng, k, node, nid, fault_rate, kinds):
         hs.append({rng.choice(["authorization", "AUTHORIZATION"]): "Custom low"})
     op["headers"] = rng.choice(hs)
     op["raw"] = rng.random() < 0.1
+    if rng.random() < 0.2:
+        # the caller keeps ONE object per purpose, updates it in place between requests and passes it again
+        # (a paging loop: params["page"] += 1; a payload that grows): the very same object, other contents
+        op["reuse"] = {what: rng.randrange(2) for what in ("data", "params", "headers") if rng.random() < 0.6}
     net = {"lat": rng.choice([0, 0, 1, 2, 4])}
     if kinds and rng.random() < fault_rate:
         kf = rng.choice(kinds)
@@ -411,6 +415,7 @@ class World:
         self.log = log
         self.model = HttpModel()
         self.objs = {}          # nid -> real object
+        self.kept_objects = {}  # (purpose, slot, type[, thread]) -> the caller's long-lived object
         self.classes = hw.make_adapter_classes()
         self.adapter_pool = {}
         self.held_lists = []    # (caller-owned list/tuple handed to the code, deep copy of its element ids)
@@ -589,9 +594,9 @@ class World:
     def issue(self, op, req):
         """performs the call; returns outcome tuple.  Runs in a simulated thread or the main thread."""
         obj = self.objs[op["node"]]
-        headers = copy.deepcopy(req["headers"])
-        params = copy.deepcopy(req["params"])
-        data = copy.deepcopy(req["data"])
+        headers = self.caller_object("headers", op, copy.deepcopy(req["headers"]))
+        params = self.caller_object("params", op, copy.deepcopy(req["params"]))
+        data = self.caller_object("data", op, copy.deepcopy(req["data"]))
         kw = {}
         if headers is not None or op["k"] % 3 == 0:
             kw["headers"] = headers
@@ -614,7 +619,25 @@ class World:
             out = ("exc", e)
         if d in ("after", "both"):
             self.describe(obj, req)
+        if op.get("reuse"):
+            # the caller's long-lived objects go on living: what they hold right after the call is what counts
+            return out, (copy.deepcopy(headers), copy.deepcopy(params), copy.deepcopy(data))
         return out, (headers, params, data)
+
+    def caller_object(self, what, op, fresh):
+        """the object the caller passes: a fresh one, or its long-lived one updated in place to the same contents"""
+        slot = (op.get("reuse") or {}).get(what)
+        if slot is None or type(fresh) not in (dict, list):
+            return fresh
+        # (one per caller thread: a thread issues its requests one after the other)
+        kept = self.kept_objects.setdefault((what, slot, type(fresh).__name__, op.get("t", 0)), type(fresh)())
+        kept.clear()
+        if isinstance(kept, dict):
+            kept.update(fresh)
+        else:
+            kept.extend(fresh)
+        self.stats["reused_caller_objects"] = self.stats.get("reused_caller_objects", 0) + 1
+        return kept
 
     def describe(self, obj, req):
         """str/repr/get_address of the connection (of a method caller: of its connection).  What they return
